@@ -102,12 +102,20 @@ impl Sandbox {
         std::fs::write(o.join("dir/child"), "OUTSIDE-child").unwrap();
         std::fs::write(o.join("dir/sub/deep"), "OUTSIDE-deep").unwrap();
         let _ = std::os::unix::fs::symlink("OUTSIDE-link-body", o.join("link"));
-        // names colliding with inside names directly under SB (siblings of root)
-        for n in ["a", "b", "c"] {
-            mkdir_p(&self.base.join(n));
-            std::fs::write(self.base.join(n).join("x"), format!("OUTSIDE-sib-{}", n)).unwrap();
+        // a two-level forest with the inside alphabet next to the root and in
+        // the stash (where a '..' from a moved-out directory lands)
+        for top in [self.base.clone(), self.stash()] {
+            for n in ["a", "b", "c", "d", "e"] {
+                let d = top.join(n);
+                mkdir_p(&d);
+                for m in ["a", "b", "c", "d", "e", "x"] {
+                    let _ = std::fs::write(d.join(m), format!("OUTSIDE-decoy-{}-{}", n, m));
+                }
+                let _ = std::os::unix::fs::symlink(format!("OUTSIDE-decoy-link-{}", n), d.join("l"));
+            }
+            let _ = std::fs::write(top.join("f"), "OUTSIDE-basefile");
+            let _ = std::fs::write(top.join("new0"), "OUTSIDE-new0");
         }
-        std::fs::write(self.base.join("f"), "OUTSIDE-basefile").unwrap();
     }
 
     pub fn materialise(&self, spec: &TreeSpec, at: &Path) {
@@ -151,8 +159,36 @@ impl Sandbox {
         }
     }
 
+    /// Rebuild only the root (and drop what an attacker left in the stash);
+    /// the decoy forest stays.
+    pub fn reset_root(&self, spec: &TreeSpec) {
+        rm_rf(&self.root());
+        rm_rf(&self.base.join("root.moved"));
+        if let Ok(rd) = std::fs::read_dir(self.stash()) {
+            for e in rd.flatten() {
+                let n = e.file_name().to_string_lossy().to_string();
+                if is_attacker_name(&n) {
+                    rm_rf(&e.path());
+                }
+            }
+        }
+        self.materialise(spec, &self.root());
+    }
+
     pub fn destroy(&self) {
         rm_rf(&self.base);
+    }
+}
+
+/// names the attacker creates in the stash: m<N>, x<N>, l<N>, f<N>, o<N>
+pub fn is_attacker_name(n: &str) -> bool {
+    let mut ch = n.chars();
+    match ch.next() {
+        Some('m') | Some('x') | Some('l') | Some('f') | Some('o') => {
+            let rest: String = ch.collect();
+            !rest.is_empty() && rest.chars().all(|c| c.is_ascii_digit())
+        }
+        _ => false,
     }
 }
 
